@@ -52,6 +52,21 @@ def stateful_program(rng):
     return "\n".join(L)
 
 
+def failing_teardown_program(rng):
+    """a run whose failure comes late: a destructor (run at main's scope exit, at an inner scope exit, on destroy or reassignment) raises a
+    runtime error; every shot must fail exactly like a fresh run"""
+    err = rng.choice(["int[3] copy = {1, 2, 3}; int last = copy[this.used];", "int z = this.used - this.used; int r = 7 % z;",
+                      "Journal nj = null; int r = nj.used;"])
+    when = rng.choice(["exit", "inner", "destroy", "reassign"])
+    body = {"exit": "Journal j = new Journal(); j.add(); j.add(); j.add();",
+            "inner": "{ Journal j = new Journal(); j.add(); j.add(); j.add(); } echo(\"after inner\");",
+            "destroy": "Journal j = new Journal(); j.add(); j.add(); j.add(); destroy j; echo(\"after destroy\");",
+            "reassign": "Journal j = new Journal(); j.add(); j.add(); j.add(); j = new Journal(); echo(\"after reassign\");"}[when]
+    return ("class Journal { public int used = 0; public constructor() -> Journal = default; public function add() -> void { this.used = this.used + 1; }\n"
+            "  public destructor() -> void { %s echo(\"closed\"); } }\n"
+            "function main() -> void { @tracked qubit q; x(q); bit b = measure q; %s echo(\"shot finished \" + b); }" % (err, body))
+
+
 def run(chk):
     chk.rule = ("programs x N in 2..4 shots x forced draw sequences: one parsed+analysed Program executed N times (as multi-shot mode does) "
                 "against N fresh parse-analyse-run pipelines given the same draws; every shot's echo output, tracked counts, outcomes, QASM, "
@@ -73,6 +88,8 @@ def run(chk):
         progs.append((heapgen.HeapProgram(rng, dtor=True).source(), "heap"))
     for _ in range(300 if chk.thorough else 8):
         progs.append((scopegen.ScopeProgram(rng).reference(), "scope"))
+    for _ in range(200 if chk.thorough else 12):
+        progs.append((failing_teardown_program(rng), "failing-teardown"))
     for _fn, o in load_corpus("C18"):
         progs.append((o["source"], "corpus"))
     lines = []
